@@ -24,6 +24,10 @@ type Val interface{ Key() string }
 // Const is a compile-time constant (V == nil: nil / zero value of T).
 type Const struct {
 	V constant.Value
+	// Tag, if set, replaces the value in Key(): the constant the function is
+	// specialised for (the input byte) is folded in conditions but rendered
+	// uniformly, so that the rows of different bytes can be compared.
+	Tag string
 }
 
 // FuncV is a function value with closure bindings.
@@ -51,6 +55,9 @@ type Sym struct {
 }
 
 func (c Const) Key() string {
+	if c.Tag != "" {
+		return c.Tag
+	}
 	if c.V == nil {
 		return "nil"
 	}
@@ -100,8 +107,11 @@ func (s Sym) Key() string {
 	return k
 }
 
-func MkBool(b bool) Const   { return Const{constant.MakeBool(b)} }
-func MkInt(i int64) Const   { return Const{constant.MakeInt64(i)} }
+func MkBool(b bool) Const   { return Const{V: constant.MakeBool(b)} }
+func MkInt(i int64) Const   { return Const{V: constant.MakeInt64(i)} }
+
+// MkByte is the tagged constant a step function is specialised for.
+func MkByte(b int) Const { return Const{V: constant.MakeInt64(int64(b)), Tag: "BYTE"} }
 func Param(name string) Sym { return Sym{Op: "param", Name: name} }
 
 // ---------- path state ----------
@@ -181,6 +191,9 @@ type Config struct {
 	Opaque func(*ssa.Function) bool
 	// Pure: never inlined; result is a call symbol, no effect, no epoch bump.
 	Pure func(*ssa.Function) bool
+	// Effect: never inlined; recorded as an effect without invalidating memory;
+	// the result is a call symbol.
+	Effect func(*ssa.Function) bool
 	// Inline: if non-nil, only functions for which it returns true are inlined;
 	// the others become pure call symbols (unless Opaque).
 	Inline func(*ssa.Function) bool
@@ -289,7 +302,7 @@ func (in *Interp) call(fn *ssa.Function, args []Val, binds []Val, st *State, dep
 func (in *Interp) get(fr *frame, v ssa.Value) Val {
 	switch x := v.(type) {
 	case *ssa.Const:
-		return Const{x.Value}
+		return Const{V: x.Value}
 	case *ssa.Function:
 		return FuncV{Fn: x}
 	case *ssa.Global:
@@ -374,7 +387,7 @@ func binop(op token.Token, a, b Val) Val {
 	if oka && okb && ca.V != nil && cb.V != nil {
 		if isCmp(op) {
 			if ca.V.Kind() == cb.V.Kind() || (ca.V.Kind() != constant.String && cb.V.Kind() != constant.String && ca.V.Kind() != constant.Bool) {
-				return Const{constant.MakeBool(constant.Compare(ca.V, op, cb.V))}
+				return Const{V: constant.MakeBool(constant.Compare(ca.V, op, cb.V))}
 			}
 		}
 		switch op {
@@ -384,15 +397,15 @@ func binop(op token.Token, a, b Val) Val {
 					break
 				}
 				if op == token.QUO {
-					return Const{constant.BinaryOp(ca.V, token.QUO_ASSIGN, cb.V)}
+					return Const{V: constant.BinaryOp(ca.V, token.QUO_ASSIGN, cb.V)}
 				}
-				return Const{constant.BinaryOp(ca.V, op, cb.V)}
+				return Const{V: constant.BinaryOp(ca.V, op, cb.V)}
 			}
 			if ca.V.Kind() == constant.String && op == token.ADD {
-				return Const{constant.BinaryOp(ca.V, op, cb.V)}
+				return Const{V: constant.BinaryOp(ca.V, op, cb.V)}
 			}
 		case token.LAND, token.LOR:
-			return Const{constant.BinaryOp(ca.V, op, cb.V)}
+			return Const{V: constant.BinaryOp(ca.V, op, cb.V)}
 		}
 	}
 	if oka && okb && (op == token.EQL || op == token.NEQ) && (ca.V == nil || cb.V == nil) {
@@ -425,7 +438,7 @@ func unop(op token.Token, a Val) Val {
 		case token.NOT:
 			return MkBool(!constant.BoolVal(c.V))
 		case token.SUB:
-			return Const{constant.UnaryOp(token.SUB, c.V, 0)}
+			return Const{V: constant.UnaryOp(token.SUB, c.V, 0)}
 		}
 	}
 	if op == token.NOT {
@@ -493,7 +506,7 @@ func (in *Interp) runFrom(fr *frame, b *ssa.BasicBlock, start int, st *State, de
 						}
 						if bt.Info()&types.IsString != 0 && c.V.Kind() == constant.Int {
 							if n, ok := constant.Int64Val(c.V); ok {
-								fr.env[x] = Const{constant.MakeString(string(rune(n)))}
+								fr.env[x] = Const{V: constant.MakeString(string(rune(n)))}
 								break
 							}
 						}
@@ -588,7 +601,7 @@ func (in *Interp) runFrom(fr *frame, b *ssa.BasicBlock, start int, st *State, de
 				var v Val
 				switch len(x.Results) {
 				case 0:
-					v = Const{nil}
+					v = Const{V: nil}
 				case 1:
 					v = in.get(fr, x.Results[0])
 				default:
@@ -608,7 +621,7 @@ func (in *Interp) runFrom(fr *frame, b *ssa.BasicBlock, start int, st *State, de
 					if e != nil {
 						as = append(as, in.get(fr, e))
 					} else {
-						as = append(as, Const{nil})
+						as = append(as, Const{V: nil})
 					}
 				}
 				fr.env[x] = Sym{Op: "slice", Args: as}
@@ -736,6 +749,10 @@ func (in *Interp) callResolved(callee *ssa.Function, args []Val, binds []Val, st
 	name := calleeName(callee)
 	if in.Cfg.Pure != nil && in.Cfg.Pure(callee) {
 		return ret(Sym{Op: "call", Name: name, Args: args})
+	}
+	if in.Cfg.Effect != nil && in.Cfg.Effect(callee) {
+		st.Effects = append(st.Effects, Effect{Kind: "call", What: name, Args: args})
+		return ret(Sym{Op: "call", Name: name, Args: args, Ep: len(st.Effects)})
 	}
 	opaque := in.Cfg.Opaque != nil && in.Cfg.Opaque(callee)
 	if !opaque && in.Cfg.Inline != nil && !in.Cfg.Inline(callee) {
@@ -897,4 +914,32 @@ func (s *State) LastStore(what string) (Val, bool) {
 		}
 	}
 	return nil, false
+}
+
+// EvalWith evaluates a symbolic value; leaf is called for every non-operator
+// symbol and may return nil for "unknown".
+func EvalWith(v Val, leaf func(Sym) constant.Value) constant.Value {
+	if c, ok := v.(Const); ok {
+		return c.V
+	}
+	s, ok := v.(Sym)
+	if !ok {
+		return nil
+	}
+	switch s.Op {
+	case "un", "bin", "conv":
+		env := map[string]constant.Value{}
+		for _, a := range s.Args {
+			if _, isC := a.(Const); isC {
+				continue
+			}
+			r := EvalWith(a, leaf)
+			if r == nil {
+				return nil
+			}
+			env[a.Key()] = r
+		}
+		return Eval(s, env)
+	}
+	return leaf(s)
 }
